@@ -101,6 +101,7 @@ def run(ctx):
             if spin:
                 r['failed'] = [f for f in r['failed'] if f not in spin]; r['spin_cut'] = len(spin)
                 if not r['failed']: r['status'] = 'pass'; r['discharged'] = r.get('discharged', 0) + len(spin)
+                ctx.say('  [spin] %-34s %d spin-loop unwinding assertion(s) cut as stuttering steps -> %s' % (h.name, len(spin), r['status']))
     ctx.handle_failures(replay, kf)
     announce_known(ctx, kf, replay)
     return ctx.finish()
